@@ -5,7 +5,7 @@ Confirms: (1) patch applies and the crate builds, (2) the existing suite is gree
 (3) the demo FAILS with the patch, (4) the demo PASSES without it."""
 import json, os, shutil, subprocess, sys, time
 V = os.path.dirname(os.path.dirname(os.path.abspath(__file__)))
-WT = '/tmp/wt/verify'
+WT = os.environ.get('RSV_VERIFY_WT', '/tmp/wt/verify')
 src, sid, props = sys.argv[1], sys.argv[2], sys.argv[3:]
 
 def run(cmd, **kw):
